@@ -570,3 +570,148 @@ func (c *Ctx) pan4() {
 	}, "mqtttest")
 	c.S.Floor("PAN-4", "explicit panic sites", n, 10)
 }
+
+// ---- TOK-12: the callback registry (perPacketID) ----
+
+func init() {
+	register("TOK-12", []string{"TOK-12"}, func(c *Ctx, _ map[string]bool) { c.tok12() })
+}
+
+func (c *Ctx) tok12() {
+	um := c.constInt("unorderedIDMask")
+	n := 0
+	for _, fn := range c.funcs {
+		touches := false
+		for _, b := range fn.Blocks {
+			for _, ins := range b.Instrs {
+				switch x := ins.(type) {
+				case *ssa.MapUpdate:
+					touches = touches || roleKey(x.Map) == "unorderedTxs.perPacketID"
+				case *ssa.Lookup:
+					touches = touches || roleKey(x.X) == "unorderedTxs.perPacketID"
+				case *ssa.Range:
+					touches = touches || roleKey(x.X) == "unorderedTxs.perPacketID"
+				case ssa.CallInstruction:
+					if b, ok := x.Common().Value.(*ssa.Builtin); ok && (b.Name() == "delete" || b.Name() == "len") && roleKey(x.Common().Args[0]) == "unorderedTxs.perPacketID" {
+						touches = true
+					}
+				}
+			}
+		}
+		if !touches || fn.Name() == "newClient" {
+			continue
+		}
+		n++
+		lock := c.acc("TOK-12", fn, "registry-access-under-mutex(Lock…defer-Unlock)")
+		for _, p := range c.Paths("TOK-12", fn) {
+			if p.Start != fn.Blocks[0] {
+				continue
+			}
+			locked, deferred := -1, false
+			for i := range p.Events {
+				e := &p.Events[i]
+				if isStd(e, "(*sync.Mutex).Lock") && e.Kind == pathx.KCall {
+					locked = i
+				}
+				if e.Kind == pathx.KDefer && isStd(e, "(*sync.Mutex).Unlock") {
+					deferred = true
+				}
+				if e.Kind == pathx.KCall && !e.Deferred && isStd(e, "(*sync.Mutex).Unlock") {
+					locked = -1
+				}
+				acc := false
+				switch e.Kind {
+				case pathx.KMapUpdate, pathx.KLookup:
+					acc = roleKey(e.Addr) == "unorderedTxs.perPacketID"
+				case pathx.KCall:
+					if e.Call != nil {
+						if b, ok := e.Call.Value.(*ssa.Builtin); ok && (b.Name() == "delete" || b.Name() == "len") && len(e.Args) > 0 && roleKey(e.Args[0]) == "unorderedTxs.perPacketID" {
+							acc = true
+						}
+					}
+				}
+				if acc {
+					if locked >= 0 && deferred {
+						lock.pass()
+					} else {
+						lock.fail(p, i, "the callback registry is accessed without holding its mutex (with a deferred Unlock): concurrent requests and the read routine race on the map")
+					}
+				}
+			}
+		}
+		lock.done(1, "every access lies between Lock and the deferred Unlock")
+	}
+	c.S.Floor("TOK-12", "functions touching the callback registry", n, 3)
+
+	st := c.Fn("TOK-12", "(*unorderedTxs).startTx")
+	if st == nil {
+		return
+	}
+	win := c.acc("TOK-12", st, "insert⇒window-limit-tested")
+	col := c.acc("TOK-12", st, "insert⇒identifier-proven-free(collision-skip)")
+	idc := c.acc("TOK-12", st, "identifier=counter&unorderedIDMask|space,counter++")
+	for _, p := range c.Paths("TOK-12", st) {
+		for i := range p.Events {
+			e := &p.Events[i]
+			if e.Kind != pathx.KMapUpdate || roleKey(e.Addr) != "unorderedTxs.perPacketID" {
+				continue
+			}
+			key := e.Chan
+			// collision test: a comma-ok lookup of the same key assumed absent
+			free := false
+			for j := 0; j < i; j++ {
+				l := &p.Events[j]
+				if l.Kind == pathx.KLookup && l.Chan == key && roleKey(l.Addr) == "unorderedTxs.perPacketID" && l.OkVal != nil {
+					if rel, _, ok := p.Known(l.OkVal, j, i); ok && rel == pathx.RFalse {
+						free = true
+					}
+				}
+			}
+			if free {
+				col.pass()
+			} else {
+				col.fail(p, i, "a callback is stored under an identifier that was not tested to be free: a request still awaiting a (late) response is overwritten, its caller waits forever and its response goes to the newcomer")
+			}
+			// identifier shape
+			okID := false
+			if or, ok := strip(key).(*ssa.BinOp); ok && or.Op == token.OR {
+				if and, ok := strip(or.X).(*ssa.BinOp); ok && and.Op == token.AND && isK(and.Y, um) && roleKey(and.X) == "unorderedTxs.n" {
+					okID = true
+				}
+			}
+			inc := false
+			for j := 0; j < i; j++ {
+				s := &p.Events[j]
+				if s.Kind == pathx.KStore && pathx.RoleOfAddr(s.Addr).Key() == "unorderedTxs.n" && isIncrementOf(s.Val, s.Addr) {
+					inc = true
+				}
+			}
+			if okID && (inc || p.Start != st.Blocks[0]) {
+				idc.pass()
+			} else if p.Start == st.Blocks[0] {
+				idc.fail(p, i, "identifier %s is not counter&unorderedIDMask|space with the counter advanced", Expr(key))
+			}
+			// window: only decidable on entry segments (the test precedes the loop)
+			if p.Start == st.Blocks[0] {
+				okW := false
+				for _, cm := range assumed(p, 0, i) {
+					for _, k := range []cmp{cm, cm.swapped()} {
+						if x, ok := builtinCall(k.X, "len"); ok && roleKey(x) == "unorderedTxs.perPacketID" && (k.Op == token.LEQ || k.Op == token.LSS) {
+							if lim, ok := intConst(k.Y); ok && lim <= um {
+								okW = true
+							}
+						}
+					}
+				}
+				if okW {
+					win.pass()
+				} else {
+					win.fail(p, i, "a slot is assigned without the test on the number of pending requests: the window can grow until identifiers of requests in flight collide")
+				}
+			}
+		}
+	}
+	win.done(1, "the insert is dominated by len(perPacketID) ≤ limit ≤ unorderedIDMask")
+	col.done(1, "the insert is dominated by a failed lookup of the same identifier")
+	idc.done(1, "identifier derived from the advancing counter, mask and space")
+}
